@@ -6,7 +6,7 @@ From Verif Require Import Base.Result Base.Str Base.Sexp Base.PyDict Base.Float
   Model.Tokenizer Model.Types Model.Domain Model.NumExpr Model.Problem Model.ProblemObs Model.ProblemExporter
   Spec.Pddl Spec.Grammar Spec.Problem
   Proofs.C05_Lemmas Proofs.C05_Objects Proofs.C05_Items Proofs.C05_Goal Proofs.C05_Parse Proofs.C05_Faithful
-  Proofs.C05_Examples Proofs.C05_Main Proofs.C09_Export Proofs.C09_Round.
+  Proofs.C05_Repeats Proofs.C05_Examples Proofs.C05_Main Proofs.C09_Export Proofs.C09_Round.
 Import ListNotations.
 Open Scope string_scope.
 Open Scope list_scope.
@@ -60,40 +60,59 @@ Section Roundtrip.
 
   (* every entry of the built table comes from an assignment of the text and is stored as written *)
   Definition entry_ok (fls : list (atom * string)) (kf : fkey * mfluent) : Prop :=
-    exists fl, In fl fls /\ dump_fluent (snd kf) = (fst fl, value_of num (snd fl)) /\ fst kf = fst fl.
+    exists fl, In fl fls /\ dump_fluent (snd kf) = (fst fl, value_of num (snd fl)) /\ fst kf = kappa (fst fl).
 
   Lemma built_fluents objs (all : list (atom * string)) : forall (fls : list (atom * string)) acc,
     (forall fl, In fl fls -> In fl all) ->
-    Forall (fun fl => NoDup (snd (fst fl))) fls ->
+    Forall canonical fls ->
     Forall (entry_ok all) acc -> NoDup (map fst acc) ->
     Forall (entry_ok all) (fold_left (add_fluent num dom objs) fls acc) /\
     NoDup (map fst (fold_left (add_fluent num dom objs) fls acc)).
   Proof.
     induction fls as [|[[f args] tok] r IH]; intros acc Hsub Hnd Hacc Hk; [split; assumption|].
-    pose proof (Forall_inv Hnd) as Ha. pose proof (Forall_inv_tail Hnd) as Hr. cbn [fst snd] in Ha. cbn [fold_left].
+    pose proof (Forall_inv Hnd) as Ha. pose proof (Forall_inv_tail Hnd) as Hr. unfold canonical in Ha. cbn [fst snd] in Ha.
+    cbn [fold_left].
     apply IH.
     - intros fl Hin. apply Hsub. right. exact Hin.
     - exact Hr.
     - unfold add_fluent. cbn [fst snd].
-      destruct (mk_fluent_nodup dom objs f args (value_of num tok) Ha) as [Hkeys Hdump]. rewrite Hkeys.
+      destruct (mk_fluent_general dom objs f args (value_of num tok)) as [Hkeys Hdump]. rewrite Hkeys. rewrite Ha in Hdump.
       apply kset_Forall; [exact Hacc|].
       exists ((f, args), tok). split; [apply Hsub; left; reflexivity|]. split; [exact Hdump | reflexivity].
     - apply kset_keys_NoDup. exact Hk.
   Qed.
 
-  Lemma built_fluents_ok sp : no_repeats sp = true ->
+  Lemma built_fluents_ok sp : safe_repeats sp = true ->
     let L := pb_fluents (built num dom sp) in
-    Forall (entry_ok (sp_fluents sp)) L /\ NoDup (map fst L) /\ keyed L.
+    Forall (entry_ok (sp_fluents sp)) L /\ NoDup (map fst L) /\ NoDup (map fst (dump_fluents L)).
   Proof.
-    intros Hnr. unfold no_repeats in Hnr. pose proof Hnr as Hfl.
-    assert (Hnd : Forall (fun fl : atom * string => NoDup (snd (fst fl))) (sp_fluents sp)).
-    { apply Forall_forall. intros fl Hin. rewrite forallb_forall in Hfl. specialize (Hfl fl Hin).
-      apply negb_true_iff, has_dup_name_NoDup in Hfl. exact Hfl. }
-    destruct (built_fluents (sp_objects sp) (sp_fluents sp) (sp_fluents sp) [] (fun fl H => H) Hnd) as [H1 H2];
+    intros Hsafe. destruct (safe_repeats_facts sp Hsafe) as [Hcan _].
+    destruct (built_fluents (sp_objects sp) (sp_fluents sp) (sp_fluents sp) [] (fun fl H => H) Hcan) as [H1 H2];
       [constructor | constructor|].
     cbn [built pb_fluents]. split; [exact H1|]. split; [exact H2|].
-    eapply Forall_impl; [|exact H1]. intros kf (fl & _ & Hd & Hk). pose proof (f_equal fst Hd) as Hd'. cbn [fst] in Hd'.
-    etransitivity; [exact Hd' | symmetry; exact Hk].
+    assert (Hm : map fst (fold_left (add_fluent num dom (sp_objects sp)) (sp_fluents sp) [])
+                 = map kappa (map fst (dump_fluents (fold_left (add_fluent num dom (sp_objects sp)) (sp_fluents sp) [])))).
+    { unfold dump_fluents. rewrite !map_map. apply map_ext_in. intros kf Hin.
+      rewrite Forall_forall in H1. destruct (H1 kf Hin) as (fl & _ & Hd & Hk). rewrite Hk, Hd. reflexivity. }
+    rewrite Hm in H2. apply NoDup_map_inv in H2. exact H2.
+  Qed.
+
+  (* the re-exported fluents are again in the printed form, with distinct keys *)
+  Lemma reexported_safe sp : safe_repeats sp = true -> safe_repeats (C09_Round.reexported num repr_text dom sp) = true.
+  Proof.
+    intros Hsafe. destruct (safe_repeats_facts sp Hsafe) as [Hcan Hinj].
+    destruct (built_fluents_ok sp Hsafe) as (Hent & _ & _).
+    assert (Hatoms : forall x, In x (sp_fluents (C09_Round.reexported num repr_text dom sp)) ->
+                     exists fl, In fl (sp_fluents sp) /\ fst x = fst fl).
+    { intros x Hin. cbn [sp_fluents C09_Round.reexported] in Hin. apply in_map_iff in Hin. destruct Hin as (kf & <- & Hin).
+      rewrite Forall_forall in Hent. destruct (Hent kf Hin) as (fl & Hfl & Hd & _). exists fl. split; [exact Hfl|].
+      cbn [fst]. rewrite Hd. reflexivity. }
+    apply safe_repeats_intro.
+    - apply Forall_forall. intros x Hin. destruct (Hatoms x Hin) as (fl & Hfl & E). unfold canonical. rewrite E.
+      rewrite Forall_forall in Hcan. exact (Hcan fl Hfl).
+    - intros a b Ha Hb. apply in_map_iff in Ha, Hb. destruct Ha as (xa & <- & Hxa). destruct Hb as (xb & <- & Hxb).
+      destruct (Hatoms xa Hxa) as (fa & Hfa & Ea). destruct (Hatoms xb Hxb) as (fb & Hfb & Eb). rewrite Ea, Eb.
+      apply Hinj; apply in_map; assumption.
   Qed.
 
   (* ---------- the re-read problem passes the same checks ---------- *)
@@ -107,15 +126,14 @@ Section Roundtrip.
     apply in_map_iff. exists fl. split; [reflexivity | exact Hin].
   Qed.
 
-  Lemma reexported_wf sp : repr_ok sp -> wf_code num dom sp = true -> no_repeats sp = true ->
-    wf_code num dom (reexported sp) = true /\ no_repeats (reexported sp) = true.
+  Lemma reexported_wf sp : repr_ok sp -> wf_code num dom sp = true -> safe_repeats sp = true ->
+    wf_code num dom (reexported sp) = true /\ safe_repeats (reexported sp) = true.
   Proof.
     intros Hrepr Hwf Hnr. destruct (built_fluents_ok sp Hnr) as (Hent & _ & _).
     unfold wf_code in Hwf.
     apply andb_true_iff in Hwf; destruct Hwf as [Hwf Hgn]. apply andb_true_iff in Hwf; destruct Hwf as [Hwf Hgl].
     apply andb_true_iff in Hwf; destruct Hwf as [Hwf Hfluents]. apply andb_true_iff in Hwf; destruct Hwf as [Hwf Hfacts].
     apply andb_true_iff in Hwf; destruct Hwf as [_ Htypes].
-    assert (Hnrf := Hnr). unfold no_repeats in Hnrf.
     split.
     - unfold wf_code. cbn [reexported ProblemExporter.export_problem sp_domain sp_objects sp_facts sp_fluents sp_goal sp_goal_num C09_Round.reexported].
       rewrite String.eqb_refl, Htypes, Hgl, Hgn. cbn [andb]. rewrite !andb_true_r. apply andb_true_iff. split.
@@ -126,10 +144,7 @@ Section Roundtrip.
         rewrite forallb_forall in Hfluents. specialize (Hfluents fl Hfl). unfold fluent_ok in *. cbn [fst snd].
         rewrite Hd. cbn [fst snd]. rewrite (repr_ok_fluent sp fl Hrepr Hfl). apply andb_true_iff in Hfluents. destruct Hfluents as [Hok _].
         rewrite Hok. reflexivity.
-    - unfold no_repeats. cbn [sp_fluents sp_goal_num C09_Round.reexported].
-      apply forallb_forall. intros x Hin. apply in_map_iff in Hin. destruct Hin as (kf & <- & Hin).
-      rewrite Forall_forall in Hent. destruct (Hent kf Hin) as (fl & Hfl & Hd & _). cbn [fst snd]. rewrite Hd. cbn [fst].
-      rewrite forallb_forall in Hnrf. exact (Hnrf fl Hfl).
+    - apply reexported_safe. exact Hnr.
   Qed.
 
   (* ---------- same observables ---------- *)
@@ -158,24 +173,20 @@ Section Roundtrip.
     rewrite (list_eqb_refl atom_eqb) by apply atom_eqb_refl. rewrite multiset_eqb_refl. reflexivity.
   Qed.
 
-  Lemma reexported_same sp : repr_ok sp -> no_repeats sp = true ->
+  Lemma reexported_same sp : repr_ok sp -> safe_repeats sp = true ->
     same_obs (built num dom (reexported sp)) (built num dom sp).
   Proof.
-    intros Hrepr Hnr. destruct (built_fluents_ok sp Hnr) as (Hent & Hkeys & Hkeyed).
-    assert (Hnr2 : Forall (fun fl : atom * string => NoDup (snd (fst fl))) (sp_fluents (reexported sp))).
-    { cbn [sp_fluents C09_Round.reexported]. apply Forall_forall. intros x Hin. apply in_map_iff in Hin.
-      destruct Hin as (kf & <- & Hin). rewrite Forall_forall in Hent. destruct (Hent kf Hin) as (fl & Hfl & Hd & _).
-      cbn [fst snd]. rewrite Hd. cbn [fst].
-      pose proof Hnr as Hf. unfold no_repeats in Hf.
-      rewrite forallb_forall in Hf. specialize (Hf fl Hfl). apply negb_true_iff, has_dup_name_NoDup in Hf. exact Hf. }
+    intros Hrepr Hnr. destruct (built_fluents_ok sp Hnr) as (Hent & Hkeys & Hnd).
+    destruct (safe_repeats_facts _ (reexported_safe sp Hnr)) as [Hcan2 Hinj2].
     repeat split; try reflexivity.
     - intros [q xs]. cbn [built pb_facts sp_facts C09_Round.reexported].
-      destruct (fold_add_fact (dump_facts (pb_facts (built num dom sp))) [] q xs (NoDup_nil _)) as [Hnd Hm].
-      cbn [built pb_facts] in Hnd, Hm. rewrite atom_in_dump by exact Hnd. rewrite Hm.
+      destruct (fold_add_fact (dump_facts (pb_facts (built num dom sp))) [] q xs (NoDup_nil _)) as [Hnd' Hm].
+      cbn [built pb_facts] in Hnd', Hm. rewrite atom_in_dump by exact Hnd'. rewrite Hm.
       unfold mem_fact. simpl. apply orb_false_r.
-    - intros k. cbn [built pb_fluents sp_fluents sp_objects C09_Round.reexported].
-      rewrite (fold_add_fluent num dom) by (first [exact Hnr2 | constructor]).
-      cbn [dump_fluents map fluent_get].
+    - intros k. cbn [built pb_fluents sp_objects].
+      rewrite (fold_add_fluent_general num dom (sp_objects (reexported sp)) (sp_fluents (reexported sp))
+                 (sp_fluents (reexported sp)) [] k Hinj2 (fun fl H => H) Hcan2) by constructor.
+      cbn [dump_fluents map fluent_get sp_fluents C09_Round.reexported].
       assert (Hp : pairs num (map (fun kf : fkey * mfluent => (fst (dump_fluent (snd kf)), repr_text (snd (dump_fluent (snd kf)))))
                                   (pb_fluents (built num dom sp)))
                    = dump_fluents (pb_fluents (built num dom sp))).
@@ -185,16 +196,12 @@ Section Roundtrip.
         assert (E : value_of num (repr_text (value_of num (snd fl))) = value_of num (snd fl)).
         { unfold value_of at 1. rewrite (repr_ok_fluent sp fl Hrepr Hfl). reflexivity. }
         rewrite E. reflexivity. }
-      cbn [built pb_fluents] in Hp. rewrite Hp.
-      assert (Hnd : NoDup (map fst (dump_fluents (fold_left (add_fluent num dom (sp_objects sp)) (sp_fluents sp) [])))).
-      { unfold dump_fluents. rewrite map_map. cbn [built pb_fluents] in Hkeys, Hkeyed.
-        unfold keyed in Hkeyed. rewrite Forall_forall in Hkeyed.
-        erewrite map_ext_in; [exact Hkeys|]. intros kf Hin. apply (Hkeyed kf Hin). }
+      rewrite Hp. cbn [built pb_fluents] in Hnd |- *.
       rewrite (fluent_get_rev k _ Hnd).
       destruct (fluent_get k (dump_fluents (fold_left (add_fluent num dom (sp_objects sp)) (sp_fluents sp) []))); reflexivity.
   Qed.
 
-  Lemma repr_ok_reexported sp : repr_ok sp -> no_repeats sp = true -> repr_ok (reexported sp).
+  Lemma repr_ok_reexported sp : repr_ok sp -> safe_repeats sp = true -> repr_ok (reexported sp).
   Proof.
     intros Hrepr Hnr x Hx. destruct (built_fluents_ok sp Hnr) as (Hent & _ & _).
     unfold values_of in Hx. cbn [sp_fluents sp_goal_num C09_Round.reexported] in Hx.
@@ -210,7 +217,7 @@ Section Roundtrip.
   (* ---------- one round, then the theorem ---------- *)
   Lemma one_round sp :
     repr_ok sp ->
-    tokens_ok sp = true -> no_repeats sp = true -> sp_name sp <> "" -> wf_code num dom sp = true ->
+    tokens_ok sp = true -> safe_repeats sp = true -> sp_name sp <> "" -> wf_code num dom sp = true ->
     parse_problem cfg_fixed num dom (export_problem repr_text None (d_name dom) (built num dom sp))
       = Ok (built num dom (reexported sp)).
   Proof.
@@ -221,7 +228,7 @@ Section Roundtrip.
   Qed.
 
   Theorem C09_roundtrip_lemma e sp pb :
-    read_problem num e = Some sp -> repr_ok sp -> no_repeats sp = true -> sp_name sp <> "" ->
+    read_problem num e = Some sp -> repr_ok sp -> safe_repeats sp = true -> sp_name sp <> "" ->
     parse_problem cfg_fixed num dom e = Ok pb ->
     exists pb', parse_problem cfg_fixed num dom (export_problem repr_text None (d_name dom) pb) = Ok pb' /\
                 same_obs pb' pb /\
